@@ -218,7 +218,7 @@ pub fn judge(pal: &Palette, written: &[u8], required: usize, with_index: bool, s
 }
 
 pub fn workloads(tier: Tier) -> Vec<Workload> {
-    let types: Vec<Ty> = tier.pick(vec![Ty::Point, Ty::PolylineM, Ty::Multipatch], ALL13.to_vec());
+    let types: Vec<Ty> = tier.pick(vec![Ty::Point, Ty::PointZ, Ty::PolylineM, Ty::PolygonZ, Ty::MultipointM, Ty::Multipatch], ALL13.to_vec());
     let mut out = vec![];
     // every history over {Wa, Wb, F} with <= 3 writes and <= 2 finalizes (any placement)
     let maxlen = 5;
@@ -374,7 +374,7 @@ pub fn check(tier: Tier) -> i32 {
             level: "fault_enumeration",
             engine: "writer histories executed on the real ShapeWriter over logging devices; every crash image (operation prefix x torn write) of .shp and, independently, .shx fed to the real ShapeReader",
             rule: "workloads = histories over {Wa, Wb, F} with <= 3 writes and <= 2 finalizes at any placement (finalize before the first write included), ending in drop; crash points = for each device every k (operations applied) and every b (bytes of operation k+1 applied, 0 < b < len), images deduplicated by content; evaluated: every .shp image without index, and every (.shp image, .shx image) pair with index; non-trivial = some operation applied or a torn write",
-            bounds: json!({"workloads": ws.len(), "types": tier.pick(3, 13), "max_writes": 3, "max_finalizes": 2, "max_len": tier.pick(4, 5)}),
+            bounds: json!({"workloads": ws.len(), "types": tier.pick(6, 13), "max_writes": 3, "max_finalizes": 2, "max_len": tier.pick(4, 5)}),
             exhaustive: true,
             assumptions: vec![
                 "failure model of the statement: a prefix of each device's operation sequence persists, the operation at the cut may be torn at any byte, no reordering of unsynced writes".into(),
